@@ -50,6 +50,27 @@ def strategy(tier):
                          min_nev=1, min_start=3, min_instrs=2, pol=pol, delay_set=[0, 1, 2, 0.5, 0.1, 0.2, 0.3])
 
 
+def until_strategy(tier):
+    """the same programs driven through run(until=<shared event | process>) calls: waiters that register on the until-event
+    before and after the call must all be served when it is processed"""
+    from hypothesis import strategies as st
+    ev = st.tuples(st.just("ev"), st.integers(0, 3)).map(list)
+    pr = st.tuples(st.just("proc"), st.integers(0, 5)).map(list)
+    stp = st.tuples(st.just("step"), st.integers(1, 4)).map(list)
+    plan = st.lists(kgen.weighted([(ev, 3), (pr, 3), (stp, 1)]), min_size=2, max_size=6)
+    return st.fixed_dictionaries({"prog": strategy(tier), "plan": plan})
+
+
+def run_until(case):
+    from . import c03
+    info = c03.run_split(case)
+    keep = ("until-event with earlier waiters", "until-event with later waiters", "until-event already processed",
+            "until-event failed", "until-event never triggered")
+    classes = [c for c in info["classes"] if c in keep]
+    return {"nontrivial": "until-event with later waiters" in classes or "until-event with earlier waiters" in classes,
+            "classes": classes}
+
+
 PROP = Property(
     "C02",
     rule=("Generated kernel programs emphasising wiring (several waiters per event: processes and harness callbacks, "
@@ -59,9 +80,13 @@ PROP = Property(
           "with E's first outcome (value equality / exception type+args); processed events continue in the same step; "
           "second trigger raises RuntimeError and changes nothing; process termination value/exception reaches joiners; "
           "step() raises iff the harness predicts the failure unhandled (both directions), same type/args, at that "
-          "instant. Non-trivial = some processed event had >=2 waiters AND some failed event was processed."),
+          "instant. Non-trivial = some processed event had >=2 waiters AND some failed event was processed. "
+          "Facet until_event: the same programs driven through run(until=<shared event|process>) calls; every waiter of the "
+          "until-event - registered before or after the call - must be invoked once, in order, when it is processed."),
     facets=[Facet("programs", strategy, run_case, quick=3000, thorough=20000,
                   essential=["multi-waiter", "already-processed yield", "double trigger", "unhandled failure raises",
-                             "child raises -> joiner", "callback+process waiters"])],
+                             "child raises -> joiner", "callback+process waiters"]),
+            Facet("until_event", until_strategy, run_until, quick=1200, thorough=8000,
+                  essential=["until-event with later waiters", "until-event with earlier waiters"])],
     assumptions=["exceptions are compared by type name and args", "state of an environment after step() raised is not judged"],
 )
